@@ -26,6 +26,48 @@ def chan(fieldname):
     return None, n
 
 
+def rule_tick_eval(P):
+    """the tick number the refill is fed with: differences of tick numbers are elapsed ticks, also across the instants where the millisecond clock passes a multiple of 2^32"""
+    r = Rule("C21-tick-eval", "K6", "ev_token_bucket_get_tick_: the difference (mod 2^32) of the tick numbers of two instants is the number of ticks that elapsed between them", floor=200)
+    f = P.fn("ev_token_bucket_get_tick_")
+    tv = ["var", f.params[0][0], "param"]
+    c = ["var", f.params[1][0], "param"]
+    kmpt = nkey(["fld", c, "ev_token_bucket_cfg.msec_per_tick", "->"])
+    ksec = nkey(["fld", tv, "timeval.tv_sec", "->"])
+    kus = nkey(["fld", tv, "timeval.tv_usec", "->"])
+
+    def tick(ms, sub, mpt):
+        env = {"#typed": 1, tv[1]: 1, c[1]: 2, kmpt: mpt, ksec: ms // 1000, kus: (ms % 1000) * 1000 + sub}
+        outs = [o for o in run_all(f, (f.entry, 0), env, lambda el: False, P, lambda el, e_: None, max_steps=100) if not (o.kind == "exit" and o.why == "noreturn")]
+        if len(outs) != 1 or outs[0].kind != "ret":
+            raise AnalysisBroken("ev_token_bucket_get_tick_ not evaluable: %s" % [(o.kind, o.why) for o in outs][:2])
+        v = tevalx(normx(outs[0].at.e[1]), outs[0].env, P, f)
+        if not isinstance(v, int):
+            raise AnalysisBroken("ev_token_bucket_get_tick_: no value")
+        return v & 0xffffffff
+    nb = 0
+    W = 1 << 32
+    pairs = [(1000, 1000), (1000, 1999), (1000, 2000), (0, 7001), (123456, 987654)]
+    for k in (1, 2, 417, 1 << 20):
+        pairs += [(k * W - 300, k * W - 1), (k * W - 300, k * W), (k * W - 300, k * W + 200), (k * W - 1, k * W), (k * W, k * W + 14000), (k * W - 20000, k * W + 20000)]
+    try:
+        for mpt in (1, 2, 50, 1000, 7000, 86400000):
+            for m1, m2 in pairs:
+                for sub in (0, 999):
+                    t1, t2 = tick(m1, sub, mpt), tick(m2, 0 if m1 == m2 else sub, mpt)
+                    d = (t2 - t1) & 0xffffffff
+                    lo, hi = (m2 - m1) // mpt, -((m1 - m2) // mpt)
+                    r.inst((mpt, m1, m2, sub), {"msec_per_tick": mpt, "first_instant_ms": m1, "second_instant_ms": m2, "tick_difference": d, "elapsed_ticks_between": [lo, hi]})
+                    if not (lo <= d <= hi) and nb < 4:
+                        nb += 1
+                        r.bad("K6:ev_token_bucket_get_tick_:tick-difference", "%s:%d" % (f.file, f.line), f.name,
+                              "tick length %d ms: instants %d ms and %d ms are %d..%d ticks apart, the tick numbers %d and %d differ by %d: the refill is fed a tick count that is not the "
+                              "time that passed (a difference above 2^31 is taken for time running backwards and the refill is dropped)" % (mpt, m1, m2, lo, hi, t1, t2, d))
+    except AnalysisBroken as ex:
+        r.brk(str(ex))
+    return r
+
+
 def run(ctx, config):
     P = ctx.prog(UNITS, config)
     rules = []
@@ -160,6 +202,7 @@ def run(ctx, config):
                 r2.bad("K7:ev_token_bucket_init_:clamp-channel", "%s:%d" % (h.file, b.term["loc"][0]), h.name, "a limit is clamped with the other channel's maximum")
     rules.append(r2)
     rules.append(rule_refill_eval(P))
+    rules.append(rule_tick_eval(P))
     from .C22 import rule_clip_eval
     rules.append(rule_clip_eval(P, "C21-reinit"))
     return rules
